@@ -1156,6 +1156,18 @@ func deepCallTerms(c *Ctx, b *ana.Builder) []*ana.Term {
 // (H(x) < 0, H(x) == -1).
 var scanDepth int
 
+func uniqEdges(es []ana.Edge) []ana.Edge {
+	var out []ana.Edge
+	seen := map[ana.Edge]bool{}
+	for _, e := range es {
+		if !seen[e] {
+			seen[e] = true
+			out = append(out, e)
+		}
+	}
+	return out
+}
+
 func scanGates(c *Ctx, b *ana.Builder, loopOK func(b2 *ana.Builder, l *rangeLoop) bool) []ana.Edge {
 	var out []ana.Edge
 	loops := rangeLoopsAll(b)
